@@ -82,6 +82,31 @@ def metaDel (m : List (Str × RawEntry)) (k : Str) : List (Str × RawEntry) := m
 def driverIsWord (c : Char) : Bool :=
   c.isAlphanum || c = '_' || c = 'é' || c = 'ß' || c = 'Ж' || c = '中' || c = 'ü'
 
+/-- the registry of a harness run: the stock tables plus the harness's own classes registered as
+    pairs (user 1..4 behave like text, raw, command, datasource) -/
+def driverRegistry : Registry :=
+  (((stockRegistry.addPair 1 .text).addPair 2 .raw).addPair 3 .command).addPair 4 .datasource
+
+def kindIndex : Kind → Nat
+  | .text => 1 | .raw => 2 | .command => 3 | .datasource => 4 | .containerFile => 5 | .containerCommand => 6
+
+/-- "text" = the stock class; "p:text" = a user class registered as a pair; "u:text" = a user subclass
+    without registration; "g:text" / "g:raw" = the classes of a loaded archive's providers -/
+def decTyped (f : String) : Option (TName × Kind) :=
+  match f.splitOn ":" with
+  | [k] => (decKind k).map (fun k => (.stock k, k))
+  | ["p", k] => (decKind k).map (fun k => (.user (kindIndex k), k))
+  | ["u", k] => (decKind k).map (fun k => (.user (100 + kindIndex k), k))
+  | ["g", k] => (decKind k).map (fun k => (if k = .raw then .serializedRaw else .serializedText, k))
+  | _ => none
+
+def decNodes (f : String) : Option NFS :=
+  (decList f).foldr (fun item acc =>
+    match acc, item.splitOn ">" with
+    | some xs, [k, "f", b] => (match decStr k, decStr b with | some k, some b => some ((k, Node.file b) :: xs) | _, _ => none)
+    | some xs, [k, "l", t] => (match decStr k, decStr t with | some k, some t => some ((k, Node.link t) :: xs) | _, _ => none)
+    | _, _ => none) (some [])
+
 def handle (st : St) (fs : List String) : St × String :=
   match fs with
   | "rw" :: _n :: rest =>
@@ -105,15 +130,17 @@ def handle (st : St) (fs : List String) : St × String :=
     | some h, some r => ({ host := h, root := r }, "ok")
     | _, _ => (st, "bad-op")
   | "elem" :: kind :: rp :: sa :: cmd :: args :: image :: engine :: cid :: fault :: unsplit :: _n :: lines =>
-    match decKind kind, decStr rp, optStr sa, optStr cmd, decArgs args, optStr image, optStr engine, optStr cid, decLines lines with
-    | some k, some rp, some sa, some cmd, some args, some image, some engine, some cid, some ls =>
+    match decTyped kind, decStr rp, optStr sa, optStr cmd, decArgs args, optStr image, optStr engine, optStr cid, decLines lines with
+    | some (tn, k0), some rp, some sa, some cmd, some args, some image, some engine, some cid, some ls =>
+      let found := serializerFor driverRegistry tn
+      let k := found.getD k0
       let load : Option (Except Fault (List Str)) :=
         if fault = "-" then some (.ok ls) else (decNat fault).map .error
       match load with
       | some load =>
         let p : Provider := { kind := k, relativePath := rp, saveAs := sa, cmd := cmd, args := args,
                               image := image, engine := engine, containerId := cid, unsplit := unsplit = "1",
-                              load := load }
+                              serializable := found.isSome, load := load }
         ({ st with pending := st.pending ++ [p] }, encStr (relOf p))
       | none => (st, "bad-op")
     | _, _, _, _, _, _, _, _, _ => (st, "bad-op")
@@ -187,6 +214,16 @@ def handle (st : St) (fs : List String) : St × String :=
         | none => (st, "absent")
       | none => (st, "absent")
     | _, _, _ => (st, "bad-op")
+  | ["praw", nodes, path] =>
+    match decNodes nodes, decStr path with
+    | some src, some path =>
+      match persistRaw src 40 [] path ['d'] with
+      | some arch => (match arch.get ['d'] with
+                      | some (.file b) => (st, "file:" ++ encStr b)
+                      | some (.link t) => (st, "link:" ++ encStr t)
+                      | none => (st, "none"))
+      | none => (st, "none")
+    | _, _ => (st, "bad-op")
   | ["mangle", cmd] =>
     match decStr cmd with
     | some c => (st, encStr (mangle driverIsWord c))
